@@ -1,10 +1,10 @@
 SPECIFICATION Spec
 CONSTANTS
-  CwdVariant = "nofinally"
+  CwdVariant = "realpath"
   StatGuard = FALSE
   CcStopsAtExisting = FALSE
-  MaxDepth = 2
-  Universe = "chain"
+  MaxDepth = 1
+  Universe = "link"
   Emit = FALSE
-INVARIANT InvRestored
+INVARIANT InvResolves
 CHECK_DEADLOCK FALSE
